@@ -85,7 +85,21 @@ fn build_fixture() -> Fixture {
 	Fixture { root, proj }
 }
 
+thread_local! {
+	/// when set, argv() names one more watched path, absolute and missing
+	static MISSING_WATCH: std::cell::Cell<bool> = const { std::cell::Cell::new(false) };
+}
+
 fn argv(fx: &Fixture, flags: &[&str], opts: &[Opt]) -> Vec<String> {
+	let mut v = argv_base(fx, flags, opts);
+	if MISSING_WATCH.with(std::cell::Cell::get) {
+		v.insert(1, fx.root.join("vanished/watch-dir").display().to_string());
+		v.insert(1, "-w".into());
+	}
+	v
+}
+
+fn argv_base(fx: &Fixture, flags: &[&str], opts: &[Opt]) -> Vec<String> {
 	let p = fx.proj.display().to_string();
 	let mut v: Vec<String> = vec!["watchexec".into(), "--project-origin".into(), p.clone(), "-w".into(), p.clone(), "-w".into(), fx.root.join("shared").display().to_string(), "--workdir".into(), p];
 	v.extend(flags.iter().map(|s| (*s).to_string()));
@@ -237,8 +251,9 @@ pub fn replay(input: &Value) -> i32 {
 	let mask = input["flag_mask"].as_u64().unwrap_or(0) as u32;
 	let opts: Vec<Opt> = input["opts"].as_array().map(|a| a.iter().filter_map(|x| OPTS.iter().find(|o| format!("{o:?}") == x.as_str().unwrap_or("")).copied()).collect()).unwrap_or_default();
 	let flags = flag_set(mask);
-	println!("argv: {:?}", argv(&fx, &flags, &opts));
 	let base = eval_config(&fx, &rt, &[], &opts);
+	MISSING_WATCH.with(|m| m.set(input["missing_watch"] == true));
+	println!("argv: {:?}", argv(&fx, &flags, &opts));
 	let res = eval_config(&fx, &rt, &flags, &opts).map(|rows| {
 		rows.into_iter()
 			.enumerate()
@@ -250,14 +265,29 @@ pub fn replay(input: &Value) -> i32 {
 			.collect::<Vec<_>>()
 	});
 	let _ = std::fs::remove_dir_all(&fx.root);
+	let missing = input["missing_watch"] == true;
 	match res {
+		Err(e) if missing => {
+			println!("held: with the missing watched path the filterer refuses to be built ({e})");
+			0
+		}
 		Err(e) => {
 			println!("violated: construction failed: {e}");
 			1
 		}
 		Ok(rows) => {
 			let mut bad = 0;
-			for (f, k, got, want) in rows {
+			for (i, (f, k, got, want)) in rows.into_iter().enumerate() {
+				// failing-discovery leg: only the explicit options' probes, against the same
+				// options without the missing path and without flags
+				let want = if missing {
+					if !owner(&f).starts_with("--") {
+						continue;
+					}
+					base.as_ref().map_or(want, |b| b[i].2)
+				} else {
+					want
+				};
 				println!("  {f:<18} {k:?}: verdict {} expected {}{}", if got { "pass" } else { "reject" }, if want { "pass" } else { "reject" }, if got == want { "" } else { "   <== differs" });
 				if got != want {
 					bad += 1;
@@ -360,8 +390,49 @@ pub fn run(tier: Tier, seed: u64) -> i32 {
 			}
 		}
 	}
+	// failing discovery: one more watched path that does not exist. Whatever the flag mix,
+	// either the filterer refuses to be built or the explicit options are honoured exactly
+	// as without that path — never silently dropped
+	let mut missing_cases = 0u64;
+	for opts in [vec![Opt::IgnoreFile], vec![Opt::Ignore], vec![Opt::IgnoreFile, Opt::Filter]] {
+		let Ok(base) = eval_config(&fx, &rt, &[], &opts) else { continue };
+		for mask in 0u32..64 {
+			let flags = flag_set(mask);
+			MISSING_WATCH.with(|m| m.set(true));
+			let r = eval_config(&fx, &rt, &flags, &opts);
+			MISSING_WATCH.with(|m| m.set(false));
+			states += 1;
+			missing_cases += 1;
+			let Ok(rows) = r else { continue };
+			for (i, (f, k, got, _)) in rows.iter().enumerate() {
+				evals += 1;
+				let own = owner(f);
+				if !(own.starts_with("--")) {
+					continue;
+				}
+				if *got != base[i].2 {
+					viols.push(ViolationRec {
+						property: "C12".into(),
+						key: format!("C12/explicit-option-not-honoured/{own}/when-discovery-fails/{}", opt_name(&opts)),
+						detail: format!(
+							"with a missing watched path the filterer is built anyway and {f}/{k:?} {} although the same options without that path {} it (flags {flags:?})",
+							if *got { "passes" } else { "is rejected" },
+							if base[i].2 { "pass" } else { "reject" }
+						),
+						harness: "h-cli/c12".into(),
+						scenario: json!({"flag_mask": mask, "flags": flags, "opts": opts.iter().map(|o| format!("{o:?}")).collect::<Vec<_>>(), "probe": f, "kind": format!("{k:?}"), "missing_watch": true}),
+						bounds: None,
+						choices: vec![],
+						log: vec![],
+						count: 1,
+					});
+				}
+			}
+		}
+	}
 	let _ = std::fs::remove_dir_all(&fx.root);
 	let mut cov = Map::new();
+	cov.insert("missing_watch_path_cases".into(), json!(missing_cases));
 	cov.insert("states".into(), json!(states));
 	cov.insert("transitions".into(), json!(evals));
 	cov.insert("traces_validated_against_impl".into(), json!(evals));
